@@ -87,6 +87,12 @@ pub fn adversarial() -> Vec<Case> {
     load_sep("adversarial.txt", "adv")
 }
 
+/// Sources built around the unit-selection rules of range formatting (C13 only): items that start mid-line, dot chains as callees,
+/// code embedded in math, padded content blocks, hand-indented code, non-LF line ends.
+pub fn range_shapes() -> Vec<Case> {
+    load_sep("range_shapes.txt", "range-shape")
+}
+
 /// Reproducers of *open* findings: part of every base workload (they print KNOWN-FINDING lines),
 /// but never used as bases for mutation (mutating a failing input only yields more of the same).
 pub fn repro_open() -> Vec<Case> {
